@@ -878,8 +878,28 @@ class Gen:
                 outs.append(nm)
                 self.h("graph:initializer-output")
         # value_info
+        tensors = {t.name: t for t in g.initializer}
         for nm in node_outs + inits_only:
-            if nm not in outs and self.chance(0.45):
+            if nm in outs:
+                continue
+            t = tensors.get(nm)
+            if t is not None and len(t.dims) >= 1 and self.chance(0.35):
+                # an entry that RESTATES what the tensor already says (same element type, same dims) and only adds
+                # dimension denotations / a type denotation / doc / metadata
+                vi = g.value_info.add()
+                vi.name = nm
+                vi.type.tensor_type.elem_type = t.data_type
+                for d in t.dims:
+                    dd = vi.type.tensor_type.shape.dim.add()
+                    dd.dim_value = d
+                    if self.chance(0.7):
+                        dd.denotation = self.r.choice([x for x in DENOT if x])
+                if self.chance(0.3):
+                    vi.type.denotation = "TENSOR"
+                self.optstr(vi, "doc_string", NAMES_DOC, 0.3)
+                self.meta(vi.metadata_props, 0.3)
+                self.h("vinfo:restates-initializer")
+            elif self.chance(0.45):
                 self.vinfo(g.value_info.add(), nm)
                 self.h("vinfo:referenced")
         if self.chance(0.15):
